@@ -140,7 +140,7 @@ MANIFEST = {
             "refused calls return -EAGAIN without effect, one token per refill tick up to burst, a throttled module "
             "acts again after a tick; (c) every reconfiguration (incl. with no tokens left, after a restart, with a "
             "user timer of any period registered) leaves exactly one refill timer keyed as the bucket remembers it, "
-            "rate 0 leaves none, the user's timer is untouched",
+            "rate 0 leaves none, the user's timer is untouched; (d) whole core: bucket drained through the API, each token-consuming entry point refused with -EAGAIN without effect, exactly one call after one refill tick",
     "note": "rate * t is linked to ticks through (a) and (c): one refill timer whose period keeps it at or below "
             "`rate` ticks per second; the kernel timer, the real timer tree (ideal keyed set instead) and the source-"
             "dropping half of stop() are stubs listed in the evidence; sequences longer than K are covered by the "
